@@ -248,7 +248,7 @@ def principal_mises(l):
 class C17(Prop):
     ID = "C17"
     SOURCES = SOURCES
-    LEAN_MODULES = ["Proofs.C17"]
+    LEAN_MODULES = ["Proofs.C17", "Proofs.BridgeC17"]
     THEOREMS = ["PylifeVerif.C17." + t for t in [
         "misesRadicandExpanded_eq_sum_of_squares", "misesRadicandExpanded_nonneg", "misesExpanded_eq_mises",
         "mises_sq_eq_invariants", "mises_eq_sqrt_invariants", "mises_rotation_invariant",
@@ -260,7 +260,8 @@ class C17(Prop):
         "signed_zero_indicator",
         "mises_smul", "eigTriple_smul", "principal_functions_smul", "signed_functions_smul",
         "equistress_positively_homogeneous",
-        "equistress_rotation_invariant", "accessor_rowwise"]]
+        "equistress_rotation_invariant", "accessor_rowwise"]] + [
+        "PylifeVerif.Bridge.mises_eq"]      # generated (translated) mises = hand model
     PARTIAL = {}
     RULE = ("case = (1-6 stress tensors of 13 kinds incl. uniaxial, pure shear, hydrostatic, near-hydrostatic, repeated "
             "eigenvalues, zero, zero trace, |w_min| = |w_max|; one orthogonal Q (exact or random, proper or reflection); "
@@ -279,6 +280,28 @@ class C17(Prop):
         "it equals the expanded formula of the unrepaired code (theorem misesExpanded_eq_mises)",
         "pandas accessor registration / DataFrame column access are glue, checked by K and the oracle only",
     ]
+
+    # tie T (DESIGN 1.1): lean/Generated/<name>.lean are regenerated from the current python source before the build;
+    # Proofs.BridgeC17 proves them equal to the hand model the property theorems are about
+    TRANSLATED = ["Equistress"]
+
+    def setup(self, log):
+        import os
+        import sys
+        tdir = os.path.join(core.VERIF, "translate")
+        sys.path.insert(0, tdir)
+        try:
+            import translate as T
+            ok, msg = T.run_modules(self.TRANSLATED, core.REPO, core.LEAN)
+        except Exception as e:      # the translator itself is broken: every bridge obligation counts as broken
+            ok, msg = False, f"translator crashed: {type(e).__name__}: {e}"
+            for n in self.TRANSLATED:
+                with open(os.path.join(core.LEAN, "Generated", n + "Status.lean"), "w") as f:
+                    f.write('#eval (throw (IO.userError "translator crashed") : IO Unit)\n')
+        finally:
+            sys.path.remove(tdir)
+        self.stats["translator"] = msg
+        log(("translator: " + msg) if ok else ("TRANSLATOR FAILED (broken proof obligation): " + msg))
 
     def __init__(self):
         self.exhaustive = False
